@@ -1133,4 +1133,6 @@ class ImplCp(ImplEnv):
     def cmd_cpmodel(self, ts):
         if getattr(self, "cp", None) is None:
             return "bad-op"
-        return fmt_cp_proto(self.cp.model.Proto())
+        # the solver parameters the wrapper set (they are part of what is handed to CP-SAT, not of the proto)
+        params = " ; ".join(l.strip() for l in str(self.cp.solver.parameters).splitlines() if l.strip())
+        return fmt_cp_proto(self.cp.model.Proto()) + " | params " + params
